@@ -303,11 +303,25 @@ macro_rules! assignop {
 }
 
 /// mismatch geometry for matrices: pairs that are not broadcast-compatible (all dims >= 2)
-const MIS_SHAPES: [((usize, usize), (usize, usize)); 6] =
-    [((2, 3), (3, 2)), ((2, 3), (2, 2)), ((3, 3), (2, 2)), ((2, 4), (4, 2)), ((4, 4), (2, 8)), ((3, 5), (5, 3))];
+const MIS_SHAPES: [((usize, usize), (usize, usize)); 11] = [
+    ((2, 3), (3, 2)), ((2, 3), (2, 2)), ((3, 3), (2, 2)), ((2, 4), (4, 2)), ((4, 4), (2, 8)), ((3, 5), (5, 3)),
+    // a dimension of 1 on one side, the other dimension still incompatible
+    ((1, 3), (3, 4)), ((3, 1), (4, 3)), ((1, 3), (1, 4)), ((2, 1), (3, 1)), ((1, 4), (3, 5)),
+];
 /// for compound assignment any unequal shape must be rejected (no broadcasting there)
 const MIS_ASSIGN_SHAPES: [((usize, usize), (usize, usize)); 7] =
     [((2, 3), (3, 2)), ((1, 6), (6, 1)), ((4, 1), (2, 2)), ((2, 3), (1, 3)), ((3, 3), (1, 1)), ((2, 2), (2, 3)), ((2, 8), (4, 4))];
+
+/// the in-place change made between the two evaluations of a reduction: an interior position and
+/// its new value (None for fewer than three elements)
+fn poke_of(a: &[f64]) -> Option<(usize, f64)> {
+    if a.len() < 3 {
+        return None;
+    }
+    let k = a.len() / 2;
+    let nv = if a[k].is_finite() && a[k].abs() < 1e6 { a[k] + 1.0 } else { 2.5 };
+    Some((k, nv))
+}
 
 fn run_form(f: &Form, a: &[f64], b: &[f64], s: f64, rows: usize, alt: usize, alias: bool) -> Result<Outc, String> {
     let n = a.len();
@@ -516,25 +530,40 @@ fn run_form(f: &Form, a: &[f64], b: &[f64], s: f64, rows: usize, alt: usize, ali
         Form::Reduce(red) => {
             let (av, bv) = (a.to_vec(), b.to_vec());
             catch(move || {
-                let v = match red {
-                    Red::Sum => sum(&av),
-                    Red::SumM => Vector::new(av.clone()).sum(),
-                    Red::Prod => prod(&av),
-                    Red::ProdM => Vector::new(av.clone()).prod(),
-                    Red::Dot => dot(&av, &bv),
-                    Red::Norm => norm(&av),
-                    Red::NormM => Vector::new(av.clone()).norm(),
-                    Red::InfNorm => inf_norm(&av, rows),
-                    Red::InfNormM => mk_matrix(&av, rows).inf_norm(),
-                    Red::LogSumExp => logsumexp(&av),
-                    Red::LogSumExpM => Vector::new(av.clone()).logsumexp(),
-                    Red::LogMeanExp => logmeanexp(&av),
-                    Red::LogMeanExpM => Vector::new(av.clone()).logmeanexp(),
-                    Red::MatSum => mk_matrix(&av, rows).sum(),
-                    Red::MatNorm => mk_matrix(&av, rows).norm(),
-                    Red::MatProd => mk_matrix(&av, rows).prod(),
+                // one live object per call family; the reduction is taken twice on the SAME storage,
+                // with one interior element changed in place in between (first and last element,
+                // address and length stay as they were): the second answer must follow the data
+                let mut xv = Vector::new(av.clone());
+                let mut xm = if matches!(red, Red::InfNormM | Red::MatSum | Red::MatNorm | Red::MatProd) { Some(mk_matrix(&av, rows)) } else { None };
+                let eval = |xv: &Vector, xm: &Option<Matrix>| match red {
+                    Red::Sum => sum(xv.data()),
+                    Red::SumM => xv.sum(),
+                    Red::Prod => prod(xv.data()),
+                    Red::ProdM => xv.prod(),
+                    Red::Dot => dot(xv.data(), &bv),
+                    Red::Norm => norm(xv.data()),
+                    Red::NormM => xv.norm(),
+                    Red::InfNorm => inf_norm(xv.data(), rows),
+                    Red::InfNormM => xm.as_ref().unwrap().inf_norm(),
+                    Red::LogSumExp => logsumexp(xv.data()),
+                    Red::LogSumExpM => xv.logsumexp(),
+                    Red::LogMeanExp => logmeanexp(xv.data()),
+                    Red::LogMeanExpM => xv.logmeanexp(),
+                    Red::MatSum => xm.as_ref().unwrap().sum(),
+                    Red::MatNorm => xm.as_ref().unwrap().norm(),
+                    Red::MatProd => xm.as_ref().unwrap().prod(),
                 };
-                Outc { res: bits(&[v]), shape: (1, 1), a_after: Some(bits(&av)), b_after: None }
+                let v = eval(&xv, &xm);
+                let after = bits(match &xm { Some(m) => m.data().data(), None => xv.data() });
+                let mut res = vec![v];
+                if let Some((k, nv)) = poke_of(&av) {
+                    xv[k] = nv;
+                    if let Some(m) = xm.as_mut() {
+                        m.data_mut()[k] = nv;
+                    }
+                    res.push(eval(&xv, &xm));
+                }
+                Outc { res: bits(&res), shape: (1, 1), a_after: Some(after), b_after: None }
             })
         }
         Form::MisVV(op, own) => {
@@ -590,6 +619,17 @@ fn run_form(f: &Form, a: &[f64], b: &[f64], s: f64, rows: usize, alt: usize, ali
             let d1: Vec<f64> = (0..r1 * c1).map(|i| i as f64 + 1.0).collect();
             let d2: Vec<f64> = (0..r2 * c2).map(|i| 10.0 - i as f64).collect();
             let (x, y) = (Matrix::new(d1, r1 as i32, c1 as i32), Matrix::new(d2, r2 as i32, c2 as i32));
+            if (alt / 16) % 2 == 1 {
+                // environment: a LEGAL stacked combination first (one row against r2 rows), then the
+                // same illegal pair once through borrowed operands; the request below is the retry
+                let row = Matrix::new((0..c2).map(|i| i as f64).collect::<Vec<f64>>(), 1, c2 as i32);
+                let yy = y.clone();
+                let _ = catch(move || bits(&binop!(op, &row, &yy).data));
+                let (xx, yy) = (x.clone(), y.clone());
+                if let Ok(v) = catch(move || bits(&binop!(op, &xx, &yy).data)) {
+                    return Ok(Outc { res: v, shape: (1, 0), a_after: None, b_after: None });
+                }
+            }
             catch(move || match own {
                 Own::VV => Outc { res: bits(&binop!(op, x, y).data), shape: (1, 0), a_after: None, b_after: None },
                 Own::RR => {
@@ -1114,6 +1154,15 @@ impl Prop for C04 {
                         if let Err(d) = check_reduction(*red, &a, &b, rows_here.max(1), got) {
                             verdict = Some(mk("reduction_off_definition", d));
                             break 'steps;
+                        }
+                        if let (Some((k, nv)), Some(g2)) = (poke_of(&a), o.res.get(1)) {
+                            st.inc("reduce.again_after_in_place_change");
+                            let mut a2 = a.clone();
+                            a2[k] = nv;
+                            if let Err(d) = check_reduction(*red, &a2, &b, rows_here.max(1), f64::from_bits(*g2)) {
+                                verdict = Some(mk("reduction_off_definition", format!("second evaluation on the same object after element {} was changed in place to {:e}: {}", k, nv, d)));
+                                break 'steps;
+                            }
                         }
                     }
                 },
